@@ -180,6 +180,7 @@ func (tr *Transaction) Write(b *Batch, wo *opt.WriteOptions) error {
 }
 
 func (tr *Transaction) setDone() {
+	verifAt("t.done")
 	tr.closed = true
 	tr.db.tr = nil
 	tr.mem.decref()
@@ -224,7 +225,9 @@ func (tr *Transaction) Commit() error {
 				}
 			} else {
 				// Success. Set db.seq.
+				verifAt("t.installed", tr.seq)
 				tr.db.setSeq(tr.seq)
+				verifAt("t.publish", tr.seq)
 				break
 			}
 		}
@@ -331,5 +334,6 @@ func (db *DB) OpenTransaction() (*Transaction, error) {
 	}
 	tr.mem.incref()
 	db.tr = tr
+	verifAt("t.open", tr.seq)
 	return tr, nil
 }
